@@ -175,7 +175,10 @@ func runC01(c *core.Case) {
 		if r.P(0.5) {
 			n = 1
 		}
-		if r.P(0.002) { // long lists around batch sizes (implementations that chunk or parallelise must keep length and order)
+		if r.P(0.0002) || (c.Tier == "thorough" && r.P(0.0003)) { // very long lists (2^15 .. 2^17 + 3 points)
+			n = veryLongLen(r)
+			c.Tag("very-long-list")
+		} else if r.P(0.002) { // long lists around batch sizes (implementations that chunk or parallelise must keep length and order)
 			n = longLen(r)
 			c.Tag("long-list")
 		}
@@ -192,6 +195,26 @@ func runC01(c *core.Case) {
 					p.lon, p.lat = q.lon, math.Max(-ref.MaxLat, math.Min(ref.MaxLat, q.lon)) // lat numerically equal to the previous lon
 				case 3:
 					p.lon, p.lat = q.lon, q.lat // vertical stack
+				case 4, 5:
+					// the two neighbours on the 1e-10 deg storage lattice that straddle a row boundary of this zoom, adjacent in
+					// the list (they differ by less than 1e-10 as floats, yet lie in different rows)
+					k := r.Range(1, pow2(h)-1)
+					if h == 0 {
+						k = 0
+					}
+					b := ref.LatOfRow(float64(k), h)
+					t0 := math.Floor(b*1e10) / 1e10
+					t1 := (math.Floor(b*1e10) + 1) / 1e10
+					if r.Bool() {
+						t0, t1 = t1, t0
+					}
+					if math.Abs(t0) <= ref.MaxLat && math.Abs(t1) <= ref.MaxLat && i == len(pts) {
+						pts[i-1].lat = t0
+						p.lat = t1
+						if r.Bool() {
+							p.lon = pts[i-1].lon
+						}
+					}
 				}
 			}
 			pts = append(pts, p)
